@@ -19,12 +19,17 @@ LABEL = "L_t"
 PLACE = 0x00400000
 
 
-# ---------------------------------------------------------------- idiom G
-def gen_table(ctx):
-    """Run tla/RV32_Gen.tla; {surface mnemonic: row} with the labelled boundary values."""
-    out = os.path.join(ctx.workdir, "rv32_gen.json")
-    ctx.tlc("RV32_Gen", CFG, label="G: boundary product from FieldRange", env={"OUT_FILE": out}, workers=2,
-            coverage=False)
+# ---------------------------------------------------------------- idioms M and G
+LAWS = {
+    "h16": ["LawEncodeDecode", "LawExpand"],
+    "w32": ["LawEncodeDecode"],
+    "ins": ["LawDecodeEncode", "LawFieldRange"],
+    "hilo": ["LawHiLo"],
+    "exe": ["LawDecodeEncode", "LawWrites", "LawReads", "LawPc", "LawLink", "LawBranch", "LawDiv", "LawMul", "LawMem"],
+}
+
+
+def _read_table(out):
     try:
         with open(out) as f:
             rows = json.load(f)
@@ -32,6 +37,32 @@ def gen_table(ctx):
         raise tlcmod.MachineryError("RV32_Gen wrote no table: %s" % e)
     os.unlink(out)
     return {r["mn"]: r for r in rows}
+
+
+def gen_table(ctx):
+    """Run tla/RV32_GenRun.tla; {surface mnemonic: row} with the labelled boundary values."""
+    out = os.path.join(ctx.workdir, "rv32_gen.json")
+    ctx.tlc("RV32_GenRun", CFG, label="G: boundary product from FieldRange", env={"OUT_FILE": out}, workers=2,
+            coverage=False)
+    return _read_table(out)
+
+
+def laws_and_table(ctx, fams, deep, workers=8):
+    """Idiom M (laws of RV32.tla on the families `fams`) + idiom G (boundary table) in one TLC run.
+    A failing law is a defect of the specification itself: machinery failure, never a violation."""
+    out = os.path.join(ctx.workdir, "rv32_gen.json")
+    invs = []
+    for f in fams:
+        for inv in LAWS[f]:
+            if inv not in invs:
+                invs.append(inv)
+    cfg = "CONSTANT Deep = %s\nCONSTANT Fams = {%s}\n" % ("TRUE" if deep else "FALSE", ", ".join('"%s"' % f for f in fams))
+    cfg += CFG + "".join("INVARIANT %s\n" % x for x in invs)
+    res = ctx.tlc("RV32_MC", cfg, label="M: laws of RV32.tla on %s (+ G: boundary table)" % "/".join(fams),
+                  env={"OUT_FILE": out}, workers=workers)
+    for e in res.errors:
+        raise tlcmod.MachineryError("a law of RV32.tla fails in the specification itself: %s\n%s" % (e, e.text[:1500]))
+    return _read_table(out)
 
 
 # ---------------------------------------------------------------- lexer
@@ -274,7 +305,8 @@ def record(prop, which, cname, path, text, out, sym=0, place=0, extra=None, suff
     for o in ops:
         if o[0] == "l":
             o[1] = d if abs(d) < 2 ** 30 else 0
-    r = {"t": "enc", "key": "%s:%s:%s:%s:%s%s" % (prop, which, cname, path, text, suffix), "mn": mn, "ops": ops,
+    tag = (extra or {}).get("tag", "")
+    r = {"t": "enc", "key": "%s:%s:%s:%s:%s:%s%s" % (prop, which, cname, path, tag, text, suffix), "mn": mn, "ops": ops,
          "sym": enc.limbs(sym, 4), "pc": enc.limbs(place, 4), "out": out, "text": text, "cls": cname}
     if extra:
         r.update(extra)
@@ -282,7 +314,8 @@ def record(prop, which, cname, path, text, out, sym=0, place=0, extra=None, suff
 
 
 # ---------------------------------------------------------------- instance enumeration
-ADDRESSES = [0, 2, 0x7FE, 0x800, 0x802, 0xFFE, 0x1000, 0x12345678, 0x00400800, 0x7FFFF7FE, 0x7FFFF800, 0x7FFFFFFE]
+ADDRESSES = [0, 2, 0x7FE, 0x800, 0x802, 0xFFE, 0x1000, 0x12345678, 0x00400800, 0x7FFFF7FE, 0x7FFFF800, 0x7FFFFFFE,
+             0x801, 0x12345679]
 
 
 def _defaults(sl, same):
@@ -326,6 +359,8 @@ def enumerate_instances(cls, table, rng, mode, thorough=False):
     inside = [v for v in vals_row if v["inside"]]
     if ints:
         good = next((v["v"] for v in inside if v["label"] == "a"), inside[0]["v"] if inside else 0)
+        if row and row["kind"] != "n" and 4 % row["align"] == 0 and 4 < (1 << (row["bits"] - 1)):
+            good = 4  # word-aligned default for the register sweeps
     else:
         good = 0
     # branches / jumps: the row describes the displacement (alignment 2); otherwise the symbol is an address
@@ -349,22 +384,24 @@ def enumerate_instances(cls, table, rng, mode, thorough=False):
                 for v in (vals_row if mode == "boundary" else inside):
                     x = dict(base)
                     x[n] = v["v"]
-                    add(x, "%s:%s" % (n, v["label"]))
+                    add(x, "%s:%s:%s:m4=%d" % (n, "in" if v["inside"] else "out", v["label"], v["v"] % 4))
                 if thorough and row and row["kind"] != "n":
                     lo = -(1 << (row["bits"] - 1)) if row["kind"] in "sp" else 0
                     hi = (1 << (row["bits"] - 1)) if row["kind"] == "s" else (1 << row["bits"])
                     for _ in range(12):
                         x = dict(base)
                         x[n] = rng.randrange(lo, hi) // row["align"] * row["align"]
-                        add(x, "%s:random" % n)
+                        if x[n] == 0 and row["nz"]:
+                            continue
+                        add(x, "%s:in:random:m4=%d" % (n, x[n] % 4))
             # displacements / addresses
             for n in labs:
                 if pcrel:
                     for v in (vals_row if mode == "boundary" else inside):
-                        add(base, "%s:%s" % (n, v["label"]), sym=PLACE + v["v"])
+                        add(base, "%s:%s:%s" % (n, "in" if v["inside"] else "out", v["label"]), sym=PLACE + v["v"])
                 else:
                     for a in ADDRESSES:
-                        add(base, "%s:addr" % n, sym=a)
+                        add(base, "%s:addr:%s" % (n, "odd" if a % 2 else "even"), sym=a)
             for n in csrs:
                 for c in csr_regs():
                     x = dict(base)
@@ -398,7 +435,8 @@ def enumerate_instances(cls, table, rng, mode, thorough=False):
     return out
 
 
-def enc_records(prop, which, table, rng, mode, rig, thorough=False, paths=("enc", "asm"), only_classes=None):
+def enc_records(prop, which, table, rng, mode, rig, thorough=False, paths=("enc", "asm"), only_classes=None,
+                sweep_paths=None):
     """Records (t = 'enc') for every instance of every class of an isa, per path:
     enc = Instruction.encode() (+ its relocation applied directly), asm = assembler (+ real linker)."""
     recs = []
@@ -425,7 +463,8 @@ def enc_records(prop, which, table, rng, mode, rig, thorough=False, paths=("enc"
             if sig in seen:
                 continue
             seen.add(sig)
-            for path in paths:
+            issweep = inst["tag"].endswith("sweep") or inst["tag"] in ("diag", "random")
+            for path in (sweep_paths if issweep and sweep_paths is not None else paths):
                 if path == "enc":
                     out = observe_encode(ins, sym if haslab else None, place)
                 elif haslab:
@@ -464,3 +503,238 @@ def judge(ctx, recs, invariants, label, module="RV32_Eval", workers=8):
         seen.add((idx, e.name))
         out.append((recs[idx - 1], e.name, e.last))
     return out
+
+
+# ---------------------------------------------------------------- spec validation against llvm-mc
+LLVM_MC = "/usr/bin/llvm-mc-14"
+_CSR_NAMES = {0xC00: "cycle", 0xC01: "time", 0xC02: "instret", 0xC80: "cycleh", 0xC81: "timeh", 0xC82: "instreth",
+              0x300: "mstatus", 0x304: "mie", 0x305: "mtvec", 0x341: "mepc", 0x342: "mcause", 0xF14: "mhartid",
+              0x002: "frm", 0x001: "fflags", 0x003: "fcsr", 0x301: "misa", 0x340: "mscratch", 0x343: "mtval", 0x344: "mip"}
+
+
+def llvm_text(d):
+    """Render an RV32.Decode record the way llvm-mc -M no-aliases -M numeric prints it (None: no counterpart)."""
+    m, rd, rs1, rs2, imm = d["mn"], d["rd"], d["rs1"], d["rs2"], d["imm"]
+    x = lambda r: "x%d" % r
+    if m in ("illegal", "unsupported"):
+        return None
+    if m in ("add", "sub", "sll", "slt", "sltu", "xor", "srl", "sra", "or", "and", "mul", "mulh", "mulhsu", "mulhu",
+             "div", "divu", "rem", "remu"):
+        return "%s %s, %s, %s" % (m, x(rd), x(rs1), x(rs2))
+    if m in ("addi", "slti", "sltiu", "xori", "ori", "andi", "slli", "srli", "srai"):
+        return "%s %s, %s, %d" % (m, x(rd), x(rs1), imm)
+    if m in ("lb", "lh", "lw", "lbu", "lhu"):
+        return "%s %s, %d(%s)" % (m, x(rd), imm, x(rs1))
+    if m in ("sb", "sh", "sw"):
+        return "%s %s, %d(%s)" % (m, x(rs2), imm, x(rs1))
+    if m in ("beq", "bne", "blt", "bge", "bltu", "bgeu"):
+        return "%s %s, %s, %d" % (m, x(rs1), x(rs2), imm)
+    if m == "jal":
+        return "jal %s, %d" % (x(rd), imm)
+    if m == "jalr":
+        return "jalr %s, %d(%s)" % (x(rd), imm, x(rs1))
+    if m in ("lui", "auipc"):
+        return "%s %s, %d" % (m, x(rd), imm)
+    if m in ("ecall", "ebreak", "mret", "c.nop", "c.ebreak"):
+        return m if not (m == "c.nop" and imm) else None
+    if m in ("csrrw", "csrrs", "csrrc"):
+        return "%s %s, %s, %s" % (m, x(rd), _CSR_NAMES.get(imm, str(imm)), x(rs1))
+    if m in ("csrrwi", "csrrsi", "csrrci"):
+        return "%s %s, %s, %d" % (m, x(rd), _CSR_NAMES.get(imm, str(imm)), rs1)
+    if m in ("c.addi", "c.li", "c.andi", "c.slli", "c.srli", "c.srai"):
+        return "%s %s, %d" % (m, x(rd), imm)
+    if m == "c.lui":
+        return "c.lui %s, %d" % (x(rd), imm if imm >= 0 else imm + (1 << 20))
+    if m == "c.addi16sp":
+        return "c.addi16sp x2, %d" % imm
+    if m == "c.addi4spn":
+        return "c.addi4spn %s, x2, %d" % (x(rd), imm)
+    if m in ("c.lw", "c.lwsp"):
+        return "%s %s, %d(%s)" % (m, x(rd), imm, x(rs1))
+    if m in ("c.sw", "c.swsp"):
+        return "%s %s, %d(%s)" % (m, x(rs2), imm, x(rs1))
+    if m in ("c.sub", "c.xor", "c.or", "c.and", "c.mv", "c.add"):
+        return "%s %s, %s" % (m, x(rd), x(rs2))
+    if m in ("c.j", "c.jal"):
+        return "%s %d" % (m, imm)
+    if m in ("c.beqz", "c.bnez"):
+        return "%s %s, %d" % (m, x(rs1), imm)
+    if m in ("c.jr", "c.jalr"):
+        return "%s %s" % (m, x(rs1))
+    return None
+
+
+def llvm_crosscheck(ctx, byte_lists, limit=20000):
+    """Compare RV32.Decode with llvm-mc on the same bytes.  Reports NOTE / SPEC-SUSPECT lines only."""
+    import subprocess
+    if not os.path.exists(LLVM_MC):
+        ctx.note("llvm-mc-14 not installed: specification not cross-checked")
+        return None
+    uniq = sorted({tuple(b) for b in byte_lists if len(b) in (2, 4)})[:limit]
+    if not uniq:
+        return None
+    inp = ctx.trace_file([list(b) for b in uniq], "dis.json")
+    outp = os.path.join(ctx.workdir, "dis_out.json")
+    ctx.tlc("RV32_Dis", CFG, label="spec validation: RV32.Decode table for llvm-mc comparison",
+            env={"TRACE_FILE": inp, "OUT_FILE": outp}, workers=2, coverage=False)
+    with open(outp) as f:
+        decs = json.load(f)
+    os.unlink(inp)
+    os.unlink(outp)
+    text = "".join(" ".join("0x%02x" % v for v in b) + "\n" for b in uniq)
+    p = subprocess.run([LLVM_MC, "--disassemble", "--triple=riscv32", "-mattr=+c,+m", "-M", "no-aliases", "-M", "numeric"],
+                       input=text, capture_output=True, text=True, timeout=300)
+    invalid = {int(m.group(1)) for m in re.finditer(r"<stdin>:(\d+):\d+: warning: invalid instruction encoding", p.stderr)}
+    lines = [ln.strip() for ln in p.stdout.splitlines() if ln.strip() and not ln.strip().startswith(".text")]
+    agree = differ = lenient = 0
+    k = 0
+    suspects = []
+    for n, (b, d) in enumerate(zip(uniq, decs), start=1):
+        if n in invalid:
+            ref = None
+        else:
+            if k >= len(lines):
+                break
+            ref = " ".join(lines[k].replace("\t", " ").split())
+            k += 1
+        mine = llvm_text(d)
+        if ref in ("c.unimp", "unimp"):
+            ref = None
+        if mine is None and d["mn"] not in ("illegal", "unsupported"):
+            continue  # hint encodings etc.: llvm prints them differently
+        if d["mn"] == "unsupported":
+            continue
+        if ref is not None:
+            # normalise the reference's spelling of corner encodings
+            rm = re.match(r"^(c\.s[lr][la]i)64 (x\d+)$", ref)
+            if rm:
+                ref = "%s %s, 0" % (rm.group(1), rm.group(2))
+            rm = re.match(r"^c\.lui (x\d+), (-?\d+)$", ref)
+            if rm:
+                ref = "c.lui %s, %d" % (rm.group(1), int(rm.group(2)) % (1 << 20))
+            rm = re.match(r"^(c\.s[lr][la]i|s[lr][la]i) .*, (\d+)$", ref)
+            if mine is None and rm and int(rm.group(2)) >= 32:
+                lenient += 1  # RV32: shamt[5] = 1 is reserved; the reference disassembler prints it anyway
+                continue
+            if mine is None and re.match(r"^c\.lui x\d+, 0$", ref):
+                lenient += 1  # nzimm = 0 is reserved
+                continue
+            rm = re.match(r"^(csrr[wsc]i?) (x\d+), ([a-z][a-z0-9_]*), (.*)$", ref)
+            if rm and mine is not None and rm.group(3) not in _CSR_NAMES.values():
+                mm = re.match(r"^(csrr[wsc]i?) (x\d+), (\S+), (.*)$", mine)
+                if mm and (mm.group(1), mm.group(2), mm.group(4)) == (rm.group(1), rm.group(2), rm.group(4)):
+                    agree += 1  # CSR printed by a name outside the harness' table: operation and registers agree
+                    continue
+        if mine == ref:
+            agree += 1
+        else:
+            differ += 1
+            suspects.append((bytes(b).hex(), mine, ref))
+    for h, mine, ref in suspects[:20]:
+        print("SPEC-SUSPECT property=%s case=bytes:%s RV32.Decode=%r llvm-mc=%r" % (ctx.prop, h, mine, ref))
+    ctx.note("spec validation: RV32.Decode agrees with llvm-mc-14 on %d of %d byte strings" % (agree, agree + differ))
+    ctx.cov["spec_validation"] = {"reference": "llvm-mc-14 --triple=riscv32 -mattr=+c,+m -M no-aliases", "agree": agree,
+                                  "differ": differ, "reference_lenient_on_reserved": lenient}
+    return suspects
+
+
+# ---------------------------------------------------------------- C07: declared register sets
+NPLANS = 12  # = Len(RV32!PairPlan)
+QUICK_REGS = (0, 1, 2, 5, 8, 9, 10, 15, 16, 31)
+
+
+def _xnums(regs):
+    """Declared register list -> x-register numbers (by printed name x<n>); others are not x registers."""
+    out = []
+    other = 0
+    for r in regs:
+        m = _REG.match(str(r))
+        if m and int(m.group(1)) < 32:
+            out.append(int(m.group(1)))
+        else:
+            other += 1
+    return out, other
+
+
+def _declared(ins):
+    uses, o1 = _xnums(ins.used_registers)
+    defs, o2 = _xnums(ins.defined_registers)
+    clob, o3 = _xnums(getattr(ins, "clobbers", []))
+    return uses, defs, clob, o1 + o2 + o3
+
+
+def rw_records(prop, which, table, rng, thorough=False, kind="rw"):
+    """Records (t = 'rw') for every instance of every instruction class and macro class of an isa
+    (kind = 'pseudo': macro classes only, t = 'pseudo')."""
+    recs = []
+    skipped = {}
+
+    def skip(why):
+        skipped[why] = skipped.get(why, 0) + 1
+
+    todo = ([(n, c, False) for n, c in isa_classes(which)] if kind == "rw" else []) + \
+           [(n, c, True) for n, c in pseudo_classes(which)]
+    for cname, cls, macro in todo:
+        mn = surface_mnemonic(cls)
+        if mn is None or mn in SKIP_MNEMONICS:
+            skip("directive:" + cname)
+            continue
+        seen = set()
+        k = 0
+        for inst in enumerate_instances(cls, table, rng, "valid", thorough):
+            if not thorough and inst["tag"].endswith("sweep") or inst["tag"] == "diag":
+                regs = [v.num for v in inst["values"].values() if hasattr(v, "num")]
+                if not thorough and any(r not in QUICK_REGS for r in regs):
+                    continue
+            try:
+                ins = build(cls, inst["values"])
+                text = str(ins)
+                uses, defs, clob, other = _declared(ins)
+                parts = list(ins.render()) if macro else [ins]
+            except Exception as e:
+                skip("%s:%s" % (cname, type(e).__name__))
+                continue
+            sym, place = inst["sym"], inst["place"]
+            sig = (text, sym)
+            if sig in seen:
+                continue
+            seen.add(sig)
+            seq = []
+            off = 0
+            bad = None
+            for part in parts:
+                o = observe_encode(part, sym if LABEL in str(part) else None, place + off)
+                if not o["ok"]:
+                    bad = o["exc"]
+                    break
+                if o["bytes"]:
+                    seq.append(o["bytes"])
+                    off += len(o["bytes"])
+            if bad is not None or not seq:
+                skip("not encodable:%s" % cname)
+                continue
+            k += 1
+            plans = list(range(1, NPLANS + 1)) if thorough else sorted({(k * 5 + j * 3) % NPLANS + 1 for j in range(4)})
+            suffix = "@%#x" % sym if LABEL in text else ""
+            tk = tokenize(text)
+            if tk is None:
+                skip("not tokenisable:%s" % cname)
+                continue
+            d = sym - place
+            for o in tk[1]:
+                if o[0] == "l":
+                    o[1] = d if abs(d) < 2 ** 30 else 0
+            base = {"key": "%s:%s:%s:%s:%s%s" % (prop, which, cname, inst["tag"], text, suffix),
+                    "seq": seq, "mn": tk[0], "ops": tk[1], "sym": enc.limbs(sym, 4), "pc": enc.limbs(place, 4),
+                    "text": text, "cls": cname, "tag": inst["tag"], "macro": macro}
+            if kind == "rw":
+                base.update({"t": "rw", "uses": uses, "defs": defs, "clob": clob, "plans": plans})
+            else:
+                base.update({"t": "pseudo"})
+            recs.append(base)
+    return recs, skipped
+
+
+def pseudo_records(prop, which, table, rng, thorough=False):
+    """Records (t = 'pseudo'): printed text of every macro-instruction instance + its rendering."""
+    return rw_records(prop, which, table, rng, thorough, kind="pseudo")
